@@ -14,7 +14,7 @@ Lemma twin_residuals_equal_incomp :
   hyd_incomp_np_load_vec_nodes_to bp_AREA bp_D bp_LAMBDA bp_LENGTH bp_LOSS_COEFFICIENT bp_MDOTINIT bp_PL der_lambda height_difference p_init_i1_abs p_init_i_abs rho = hyd_incomp_nb_load_vec_nodes_to bp_AREA bp_D bp_LAMBDA bp_LENGTH bp_LOSS_COEFFICIENT bp_MDOTINIT bp_PL der_lambda height_difference p_init_i1_abs p_init_i_abs rho /\
   hyd_incomp_np_dp_frict_loss bp_AREA bp_D bp_LAMBDA bp_LENGTH bp_LOSS_COEFFICIENT bp_MDOTINIT bp_PL der_lambda height_difference p_init_i1_abs p_init_i_abs rho = hyd_incomp_nb_dp_frict_loss bp_AREA bp_D bp_LAMBDA bp_LENGTH bp_LOSS_COEFFICIENT bp_MDOTINIT bp_PL der_lambda height_difference p_init_i1_abs p_init_i_abs rho.
 Proof.
-  intros. unfold hyd_incomp_np_load_vec, hyd_incomp_nb_load_vec, hyd_incomp_np_load_vec_nodes_from, hyd_incomp_nb_load_vec_nodes_from, hyd_incomp_np_load_vec_nodes_to, hyd_incomp_nb_load_vec_nodes_to, hyd_incomp_np_dp_frict_loss, hyd_incomp_nb_dp_frict_loss. cbv zeta. repeat split; ring.
+  intros. unfold hyd_incomp_np_load_vec, hyd_incomp_nb_load_vec, hyd_incomp_np_load_vec_nodes_from, hyd_incomp_nb_load_vec_nodes_from, hyd_incomp_np_load_vec_nodes_to, hyd_incomp_nb_load_vec_nodes_to, hyd_incomp_np_dp_frict_loss, hyd_incomp_nb_dp_frict_loss. cbv zeta. unfold Rdiv. repeat split; ring.
 Qed.
 
 (* liquid kernel: all four Jacobian outputs agree for ALL inputs (the regularisation max(|m|,1e-8) is in both) *)
@@ -25,7 +25,7 @@ Lemma twin_jacobians_equal_incomp :
   hyd_incomp_np_df_dp bp_AREA bp_D bp_LAMBDA bp_LENGTH bp_LOSS_COEFFICIENT bp_MDOTINIT bp_PL der_lambda height_difference p_init_i1_abs p_init_i_abs rho = hyd_incomp_nb_df_dp bp_AREA bp_D bp_LAMBDA bp_LENGTH bp_LOSS_COEFFICIENT bp_MDOTINIT bp_PL der_lambda height_difference p_init_i1_abs p_init_i_abs rho /\
   hyd_incomp_np_df_dp1 bp_AREA bp_D bp_LAMBDA bp_LENGTH bp_LOSS_COEFFICIENT bp_MDOTINIT bp_PL der_lambda height_difference p_init_i1_abs p_init_i_abs rho = hyd_incomp_nb_df_dp1 bp_AREA bp_D bp_LAMBDA bp_LENGTH bp_LOSS_COEFFICIENT bp_MDOTINIT bp_PL der_lambda height_difference p_init_i1_abs p_init_i_abs rho.
 Proof.
-  intros. unfold hyd_incomp_np_df_dm, hyd_incomp_nb_df_dm, hyd_incomp_np_df_dm_nodes, hyd_incomp_nb_df_dm_nodes, hyd_incomp_np_df_dp, hyd_incomp_nb_df_dp, hyd_incomp_np_df_dp1, hyd_incomp_nb_df_dp1. cbv zeta. repeat split; ring.
+  intros. unfold hyd_incomp_np_df_dm, hyd_incomp_nb_df_dm, hyd_incomp_np_df_dm_nodes, hyd_incomp_nb_df_dm_nodes, hyd_incomp_np_df_dp, hyd_incomp_nb_df_dp, hyd_incomp_np_df_dp1, hyd_incomp_nb_df_dp1. cbv zeta. unfold Rdiv. repeat split; ring.
 Qed.
 
 (* gas kernel: load-vector outputs agree for ALL inputs *)
@@ -36,7 +36,7 @@ Lemma twin_residuals_equal_comp :
   hyd_comp_np_load_vec_nodes_to bp_AREA bp_D bp_LENGTH bp_LOSS_COEFFICIENT bp_MDOTINIT bp_PL bp_TOUTINIT comp_fact der_comp der_comp1 der_lambda height_difference lambda_ np_from_TINIT p_init_i1_abs p_init_i_abs rho rho_n = hyd_comp_nb_load_vec_nodes_to bp_AREA bp_D bp_LENGTH bp_LOSS_COEFFICIENT bp_MDOTINIT bp_PL bp_TOUTINIT comp_fact der_comp der_comp1 der_lambda height_difference lambda_ np_from_TINIT p_init_i1_abs p_init_i_abs rho rho_n /\
   hyd_comp_np_dp_frict_loss bp_AREA bp_D bp_LENGTH bp_LOSS_COEFFICIENT bp_MDOTINIT bp_PL bp_TOUTINIT comp_fact der_comp der_comp1 der_lambda height_difference lambda_ np_from_TINIT p_init_i1_abs p_init_i_abs rho rho_n = hyd_comp_nb_dp_frict_loss bp_AREA bp_D bp_LENGTH bp_LOSS_COEFFICIENT bp_MDOTINIT bp_PL bp_TOUTINIT comp_fact der_comp der_comp1 der_lambda height_difference lambda_ np_from_TINIT p_init_i1_abs p_init_i_abs rho rho_n.
 Proof.
-  intros. unfold hyd_comp_np_load_vec, hyd_comp_nb_load_vec, hyd_comp_np_load_vec_nodes_from, hyd_comp_nb_load_vec_nodes_from, hyd_comp_np_load_vec_nodes_to, hyd_comp_nb_load_vec_nodes_to, hyd_comp_np_dp_frict_loss, hyd_comp_nb_dp_frict_loss. cbv zeta. repeat split; ring.
+  intros. unfold hyd_comp_np_load_vec, hyd_comp_nb_load_vec, hyd_comp_np_load_vec_nodes_from, hyd_comp_nb_load_vec_nodes_from, hyd_comp_np_load_vec_nodes_to, hyd_comp_nb_load_vec_nodes_to, hyd_comp_np_dp_frict_loss, hyd_comp_nb_dp_frict_loss. cbv zeta. unfold Rdiv. repeat split; ring.
 Qed.
 
 (* gas kernel: df_dp, df_dp1, df_dm_nodes agree for ALL inputs; df_dm agrees whenever |m| > 1e-8 (named exception below) *)
@@ -48,8 +48,8 @@ Lemma twin_jacobians_equal_comp_partial :
   (1 / 100000000 < Rabs bp_MDOTINIT ->
    hyd_comp_np_df_dm bp_AREA bp_D bp_LENGTH bp_LOSS_COEFFICIENT bp_MDOTINIT bp_PL bp_TOUTINIT comp_fact der_comp der_comp1 der_lambda height_difference lambda_ np_from_TINIT p_init_i1_abs p_init_i_abs rho rho_n = hyd_comp_nb_df_dm bp_AREA bp_D bp_LENGTH bp_LOSS_COEFFICIENT bp_MDOTINIT bp_PL bp_TOUTINIT comp_fact der_comp der_comp1 der_lambda height_difference lambda_ np_from_TINIT p_init_i1_abs p_init_i_abs rho rho_n).
 Proof.
-  intros. unfold hyd_comp_np_df_dm, hyd_comp_nb_df_dm, hyd_comp_np_df_dm_nodes, hyd_comp_nb_df_dm_nodes, hyd_comp_np_df_dp, hyd_comp_nb_df_dp, hyd_comp_np_df_dp1, hyd_comp_nb_df_dp1. cbv zeta. repeat split; try ring.
-  intros Hm. rewrite Rabs_Rabsolu. destruct (Rleb_spec (Rabs bp_MDOTINIT) (1 / 100000000)); [lra | ring].
+  intros. unfold hyd_comp_np_df_dm, hyd_comp_nb_df_dm, hyd_comp_np_df_dm_nodes, hyd_comp_nb_df_dm_nodes, hyd_comp_np_df_dp, hyd_comp_nb_df_dp, hyd_comp_np_df_dp1, hyd_comp_nb_df_dp1. cbv zeta. repeat split; try (unfold Rdiv; ring).
+  intros Hm. rewrite Rabs_Rabsolu. destruct (Rleb_spec (Rabs bp_MDOTINIT) (1 / 100000000)); [lra | unfold Rdiv; ring].
 Qed.
 
 (* the named exception: at |m| <= 1e-8 numpy overwrites df_dm by 1, numba keeps the regularised derivative (m_abs_deriv = 1e-8) *)
